@@ -41,10 +41,12 @@ Theorem stops_within_depth_plain :
 Proof. exact stops_within_depth_plain_lemma. Qed.
 Print Assumptions stops_within_depth_plain.
 
-(* When control never returns to a Go library frame or to the host before a poll (armed_run), the
-   number of attempts of a complete run is exactly cost_run and it ends with the context's error. *)
+(* When control never returns to a Go library frame or to the host before a poll (armed_run) and no
+   channel operation is pending (no_block: a pending one may raise or complete), the number of
+   attempts of a complete run is exactly cost_run and it ends with the context's error. *)
 Theorem stops_exactly :
-  forall σ tr σ', cstate σ -> md σ = Run -> armed_run (stk σ) = true -> run σ tr σ' -> final σ' ->
+  forall σ tr σ', cstate σ -> md σ = Run -> armed_run (stk σ) = true -> no_block (stk σ) = true ->
+    run σ tr σ' -> final σ' ->
     attempts tr = cost_run (stk σ) /\ md σ' = Raising ECtx.
 Proof. exact stops_exactly_lemma. Qed.
 Print Assumptions stops_exactly.
@@ -90,11 +92,12 @@ Theorem threads_inherit_ctx :
 Proof. exact threads_inherit_ctx_lemma. Qed.
 Print Assumptions threads_inherit_ctx.
 
-(* A channel receive/select/send waiting on a thread with a context returns when the context is done
-   (model rule; that the Go runtime wakes the goroutine is not modelled). *)
+(* A channel receive/select/send waiting on a thread with a context raises the context's error when
+   the context is done (model rule; that the Go runtime wakes the goroutine is not modelled). *)
 Theorem blocked_operation_released :
   forall σ p s, cstate σ -> md σ = Run -> stk σ = TGoBlock p :: s ->
-    step σ LUnblock (with_stk σ s Run) /\ cstate (with_stk σ s Run).
+    step σ LUnblock (with_stk σ (stk σ) (Raising ECtx)) /\
+    cstate (with_stk σ (stk σ) (Raising ECtx)).
 Proof. exact blocked_operation_released_lemma. Qed.
 Print Assumptions blocked_operation_released.
 
